@@ -140,8 +140,8 @@ claim("C14",
       "pr::Expr::write's use of needs_parenthesis and the non-binary arms' option handling are read off the text, not verified; chumsky's pratt() "
       "semantics assumed; regex / HashSet / Formatter / String operations are shims by contract.")
 
-prop("C05", ["select_shape", "star_exclude", "limit_select"],
-     not_covered="translate_wildcards (which columns a star brings along: hash-set algebra over relation instances), split_off_back / anchor_split behind extract_atomic, agreement "
+prop("C05", ["select_shape", "star_exclude", "limit_select", "star_cols"],
+     not_covered="the rest of translate_wildcards (bookkeeping of the current star and of the exclusion sets), split_off_back / anchor_split behind extract_atomic, agreement "
                  "with the resolver's frame for every program, run-time expansion of `*`")
 claim("C05",
       "PARTIAL. Proved on the real code: translate_select_item leaves a select item un-aliased only when the name SQL infers is EXACTLY the expected "
@@ -149,7 +149,9 @@ claim("C05",
       "function of deduplicate_select_items drops an item only when it is an exact duplicate (same text, same quoting) of one kept before (DD1-3); "
       "helper sort columns are appended to CTE projections only and never reorder or remove what was selected (SS3a-b); translate_exclude names every unrequested "
       "column of a star in the dialect's EXCLUDE / EXCEPT clause (star_exclude TE2-3); extract_atomic leaves a SELECT that projects only requested columns alone and "
-      "otherwise puts a SELECT of exactly the requested columns, in the requested order, on top (limit_select EA1-3). The obligation that such columns are excluded for EVERY dialect (TE1) fails for "
+      "otherwise puts a SELECT of exactly the requested columns, in the requested order, on top (limit_select EA1-3); when a star follows, only the explicitly "
+      "selected columns IMMEDIATELY before it that it includes are dropped from the projection - what stays is a prefix, in order (star_cols AB1-3, loop invariant); "
+      "push_select expands `T.*` into every listed column of T, in order, after what was selected before (XA1, loop invariant). The obligation that such columns are excluded for EVERY dialect (TE1) fails for "
       "dialects without such a clause: recorded finding (`_expr_0` appears in the result on SQLite). NOT proved: wildcard / "
       "exclude translation, arity and order of the final projection for every program.",
       "translate_cid, the computation of the inferred name, HashMap / HashSet / NameGenerator are shims by contract; the iteration of retain() and "
@@ -227,7 +229,7 @@ def _safety(name):
 
 
 _ALL_UNITS = ["take_range", "sort_take", "split_order", "window_frame", "dialect_select", "ident_quote", "ids_names", "toposort", "rq_tables",
-              "select_shape", "span_units", "sql_prec", "prql_prec", "literals", "set_ops", "desugar", "resolve_guards", "lex_strings", "limit_clause", "static_eval", "operator_tpl", "rel_names", "lower_cols", "vec_utils", "group_take", "flatten_sort", "star_exclude", "std_arity", "limit_select", "rq_shape"]
+              "select_shape", "span_units", "sql_prec", "prql_prec", "literals", "set_ops", "desugar", "resolve_guards", "lex_strings", "limit_clause", "static_eval", "operator_tpl", "rel_names", "lower_cols", "vec_utils", "group_take", "flatten_sort", "star_exclude", "std_arity", "limit_select", "rq_shape", "star_cols"]
 prop("C12", _ALL_UNITS, select={u: _safety for u in _ALL_UNITS},
      not_covered="every function that is not under contract (~150 unwrap/expect sites, todo!() in type_intersection, panic!(cannot find cid) in lookup_cid), "
                  "recursion depth, chumsky, time bounds")
